@@ -813,9 +813,19 @@ def correspondence(chk: common.Check, rng, n_per_class: int, entries, helpers, c
         except Exception as e:  # noqa: BLE001
             bad.append({**rec, "why": f"model result cannot be rebuilt: {e!r}", "model": line[:300]})
             continue
-        if op == "unfold" and m1.equal_mod_ring(real, rebuilt, ctx):
-            n_fallback += 1
-            continue
+        if op in {"unfold", "xreplace", "subs"}:
+            # SymPy's arithmetic canonicalisation is not confluent (sequential subs / evaluate=False products build
+            # other trees than a bottom-up rebuild): structurally different results are compared by value
+            try:
+                verdict = with_cap(10.0, m1.equal_mod_ring, real, rebuilt, ctx, True)
+            except _Timeout:
+                verdict = None
+            if verdict is True:
+                n_fallback += 1
+                continue
+            if verdict is None:
+                stats["structurally_different_value_undecided"] = stats.get("structurally_different_value_undecided", 0) + 1
+                continue
         bad.append({**rec, "why": "results differ", "real": str(real)[:400], "model": str(rebuilt)[:400]})
     stats["unfold_equal_only_modulo_ring_normalisation"] = n_fallback
     stats["requests"] = len(lines)
